@@ -18,7 +18,12 @@ pub struct NodeId { pub x: u64 }
 #[derive(Clone, Copy)]
 pub struct DateTimeUtc { pub ms: i64 }
 pub struct TimeDelta { pub ms: i64 }
-impl TimeDelta { pub fn num_milliseconds(&self) -> (r: i64) ensures r == self.ms { self.ms } }
+impl TimeDelta {
+    pub fn num_milliseconds(&self) -> (r: i64) ensures r == self.ms { self.ms }
+    // chrono: whole seconds, truncated towards zero
+    #[verifier::external_body]
+    pub fn num_seconds(&self) -> (r: i64) ensures r as int == (if self.ms >= 0 { self.ms as int / 1000 } else { -((-(self.ms as int)) / 1000) }) { unimplemented!() }
+}
 impl vstd::std_specs::ops::SubSpecImpl<DateTimeUtc> for DateTimeUtc {
     open spec fn obeys_sub_spec() -> bool { true }
     open spec fn sub_req(self, rhs: DateTimeUtc) -> bool { true }
@@ -101,6 +106,12 @@ impl MessageHandler {
 }
 
 // ---- specification
+// idle for `ms` milliseconds is NOT "longer than a positive time-out": `timeout > 0.0` is false, or `c > timeout` is false for the f64 c made from ms
+// (whichever of the two tests the code makes first; the cast need not happen when the time-out is not positive)
+pub open spec fn not_timed_out(ms: i64, timeout: f64) -> bool {
+    vstd::std_specs::cmp::gt_ensures::<f64>(timeout, 0.0f64, false)
+        || exists|c: f64| #[trigger] vstd::float::float_cast_spec(ms, c) && vstd::std_specs::cmp::gt_ensures::<f64>(c, timeout, false)
+}
 // the answer is a ServiceFault for that request (which status it carries is not part of the property)
 pub open spec fn is_fault(m: SupportedMessage, h: RequestHeader) -> bool {
     m is ServiceFault && m->ServiceFault_0.request_handle == h.request_handle
@@ -115,8 +126,10 @@ pub open spec fn usable(s: Session, channel: SecureChannel) -> bool {
 '''
 
 SPEC = {
-    'is_session_timed_out': ('r', '''        // (the time-out decision itself is a floating point comparison, not modelled)
-        ensures r is Err ==> is_fault(r->Err_0, *request_header),'''),
+    'is_session_timed_out': ('r', '''        // the time-out decision is a floating point comparison: stated over vstd's relations for `as f64` and `>` on f64
+        ensures r is Err ==> is_fault(r->Err_0, *request_header),
+            // "carried out only if .. not timed out": a session let through has not been idle for longer than its (positive) time-out
+            r is Ok ==> not_timed_out((now.ms - session.v.v.last_service_request_timestamp.ms) as i64, session.v.v.session_timeout),'''),
     'is_session_activated': ('r', '''        ensures (r is Ok) ==> usable(session.v.v, self.secure_channel.v.v),      // "carried out only if .."
             r is Err ==> is_fault(r->Err_0, *request_header),'''),
     'validate_service_request': ('r', '''        requires forall|s: Arc<RwLock<Session>>, m: Arc<RwLock<SessionManager>>| action.requires((s, m)),
@@ -164,13 +177,21 @@ def build(manifest):
     lb = Src('lib.rs', manifest)
     f = {}
     rewrites = []
+    float_note = []
     for n in ['is_session_timed_out', 'is_session_activated', 'validate_service_request', 'validate_activate_service_request']:
         t = norm_vis(clean_fn(mh.impl_fn(r'^impl MessageHandler \{', n)))
         t = re.sub(r'^(\s*)fn ', r'\1pub fn ', t, count=1) if not re.match(r'\s*pub ', t) else t
         if n == 'validate_service_request':
             # `response.map(|response| { diagnostics; response })`: response is the Option<SupportedMessage> computed above
             t = option_map_to_match(t, 'response', rewrites)
-        f[n] = splice_contract(t, SPEC[n][1], SPEC[n][0])
+        clauses = SPEC[n][1]
+        if n == 'is_session_timed_out' and (len(re.findall(r'\bas f64 >', t)) != 1 or re.search(r'f64 >=|<=? *[\w.()]+ as f64|<=? *[\w.()]*session_timeout', t)):
+            # vstd specifies `>` on f64 as a relation of its own, unrelated to `<`, `<=`, `>=`: the time-out clause is stated over `>`, so it is
+            # only claimed for a comparison spelled that way (anything else: clause not stated, reported as an assumption, never an alarm)
+            clauses = '\n'.join(l for l in clauses.split('\n') if 'not_timed_out' not in l and 'carried out only if' not in l)
+            float_note.append('C19: the time-out comparison of is_session_timed_out is not spelled `<ms> as f64 > <timeout>`: the clause '
+                              '"a session let through is not timed out" is NOT stated on this tree (floating point relations other than `>` have no common specification)')
+        f[n] = splice_contract(t, clauses, SPEC[n][0])
     types = mh.struct('MessageHandler', keep_fields=['secure_channel', 'session_manager'])
     a = Asm()
     a.add('use vstd::prelude::*;\n' + macro_def(lb, 'trace_read_lock') + '\n' + macro_def(lb, 'trace_write_lock') + '\nverus! {\nglobal size_of usize == 8;\n', 'prelude', 'env')
@@ -191,4 +212,7 @@ def build(manifest):
                              'and CloseSession deregisters it (services/session.rs, not under contract); the dispatcher `handle_message` '
                              '(one match arm per service, which of the two gates each service goes through) is not under contract',
                              'C19: effects through a write guard (terminate_session on time-out, the last-request timestamp) are interior '
-                             'mutation and not tracked; chrono subtraction is a difference of milliseconds'])
+                             'mutation and not tracked; chrono subtraction is a difference of milliseconds',
+                             'C19: floating point: `x as f64` and `>` on f64 are vstd\'s relations float_cast_spec / gt_ensures (uninterpreted: '
+                             'IEEE semantics is not modelled); "timed out" means `ms as f64 > timeout` and `timeout > 0.0` both hold, which is '
+                             'the code\'s own reading of the time-out in milliseconds'] + float_note)
